@@ -10,6 +10,7 @@
    4 lp       [4; m; e; x..] (pad = m * 2^-e) -> lpad :: enc_zlist (padded) ++ enc_zlist (cropped)
    5 savgol   [5; window; polynom; n; x..; y..] over Q -> 0 :: code | 1 :: n :: (floor v; floor (frac v * 2^40)) x n
    8 stack    [8; ntr; ns; word..; data..] integer data, default fcn_agg=np.nanmean: truncated means
+   11 venn    [11; n; xbin; ybin; nchan; cn; cd; trains..] chunk size cn/cd (float chunk sizes)
    10 stack   [10; ntr; nkeys; word..; header vectors..] -> per-key per-label sums of the header, fold
    9 svd      [9; nc; rank (0 = None); collection..] -> groups (rank; size; indices) and the scatter result
    6 traj     [6; nc; x..; y..] -> nrows :: ncols :: enc_zlist entries ++ enc_zlist trcount *)
@@ -40,6 +41,14 @@ Definition run_venn (l : list Z) : list Z :=
   match l with
   | n :: xbin :: ybin :: nchan :: chunk :: fs :: r =>
       enc_option enc_zlist (venn (venn_params xbin ybin nchan chunk fs) (dec_trains (Z.to_nat n) r))
+  | _ => [-999]
+  end.
+
+(* venn with a rational chunk size cn / cd: [n; xbin; ybin; nchan; cn; cd; trains..] *)
+Definition run_venn_q (l : list Z) : list Z :=
+  match l with
+  | n :: xbin :: ybin :: nchan :: cn :: cd :: r =>
+      enc_option enc_zlist (venn_q xbin ybin nchan cn cd (dec_trains (Z.to_nat n) r))
   | _ => [-999]
   end.
 
@@ -196,6 +205,7 @@ Definition run (inp : list Z) : list Z :=
   | 8 :: r => run_stack_int r
   | 9 :: r => run_svd r
   | 10 :: r => run_stack_header r
+  | 11 :: r => run_venn_q r
   | _ => [-999]
   end.
 
